@@ -247,6 +247,20 @@ func initState(cfg *Config, script Script, noClone bool) (*State, []Event, error
 	for i := 0; i < cfg.N; i++ {
 		outs[i] = s.node(i).Rec.Drain()
 	}
+	// a Byzantine participant chooses the order of its own broadcasts: injections of "phase 0" go
+	// out BEFORE its regular first-round messages (e.g. an answer that precedes the vector on the
+	// FIFO broadcast channel), those of phase 1 after them. The shares it deals are recorded first.
+	for i := 0; i < cfg.N; i++ {
+		if !cfg.IsByz(i) {
+			continue
+		}
+		for _, m := range outs[i] {
+			if !m.Bcast() && len(m.Data) > 0 && m.Data[0] == tagShare {
+				s.zshare[[2]int{i, m.To}] = append([]byte{}, m.Data[1:]...)
+			}
+		}
+	}
+	s.inject(0, &evs)
 	for i := 0; i < cfg.N; i++ {
 		s.routeOut(i, outs[i], &evs)
 	}
@@ -293,7 +307,16 @@ func (s *State) send(m Msg, evs *[]Event) {
 			case tagCmp:
 				s.observe(fmt.Sprintf("cmp:%d:p%d:%x", m.From, s.Phase, m.Data[1:]))
 			case tagAnswer:
-				s.observe(fmt.Sprintf("ans:%d:p%d:%x", m.From, s.Phase, m.Data[1:]))
+				// answers carry their position in the sender's answer sequence: the broadcast channel
+				// is FIFO per sender, so every honest receiver sees them in this order
+				k := 0
+				pre := fmt.Sprintf("ans:%d:", m.From)
+				for _, o := range s.Obs {
+					if strings.HasPrefix(o, pre) {
+						k++
+					}
+				}
+				s.observe(fmt.Sprintf("ans:%d:p%d:%x:#%03d", m.From, s.Phase, m.Data[1:], k))
 			}
 		}
 	}
@@ -798,7 +821,7 @@ func Grammar(cfg *Config) []Deviation {
 				for _, v := range []string{"omit", "late", "dup", "short", "long", "zero", "ger", "wrong", "badcomplainer", "othercomplainer", "latewrong", "dupwrong", "wrongthenright"} {
 					g = append(g, Deviation{z, fmt.Sprintf("ans:%d", r), v})
 				}
-				for k := 1; k <= 3; k++ {
+				for k := 0; k <= 3; k++ {
 					for _, v := range []string{"good", "wrong"} {
 						g = append(g, Deviation{z, fmt.Sprintf("inj:%d:preans:%d", k, r), v})
 					}
@@ -825,6 +848,7 @@ func Grammar(cfg *Config) []Deviation {
 				g = append(g, Deviation{z, fmt.Sprintf("inj:%d:ansfor:%d", k, d), "x"})
 			}
 		}
+		g = append(g, Deviation{z, "inj:0:unktag", "x"})
 		for k := 1; k <= 3; k++ {
 			g = append(g, Deviation{z, fmt.Sprintf("inj:%d:emptyb", k), "x"})
 			g = append(g, Deviation{z, fmt.Sprintf("inj:%d:unktag", k), "x"})
